@@ -103,3 +103,45 @@ Example C04_nonvacuous_model : forall il id,
   exists v b n m u c, parse_bytes il id sample_input = Ok [v; b; n; DMessage m; DUnknown u (txt "SIG_GROUP_"); DComment c]
     /\ m_id m = 2566844926 /\ List.length (m_signals m) = 1%nat /\ cm_comment c = txt "a b".
 Proof. exact sample_parses. Qed.
+
+(** ------------------------------------------------------------------ numbers: link to Flocq
+    What "the model's correctly rounded conversion" above means.  strconv.ParseFloat is modelled
+    (Dbc/DecFloat.v) as readFloat's syntax analysis, which yields a mantissa m > 0 and a decimal
+    exponent e (value m * 10^e; hexadecimal literals: m * 2^e), followed by [dec_to_spec m e]
+    ([bin_to_spec m e]), written with the executable operations of Coq's Floats.SpecFloat.
+    PROVED here (through Flocq's Bdiv_correct_aux / binary_normalize_correct): [dec_to_spec m e] and
+    [bin_to_spec m e] are the binary64 numbers nearest (ties to even, gradual underflow) to the exact
+    real value, for EVERY m and e, and they are infinite exactly when that rounded value reaches
+    2^1024 (ParseFloat's ErrRange); [b64_bits_of_spec] is Flocq's IEEE-754 encoding.
+    TESTED ONLY (NUM stream of the harness against strconv.ParseFloat/ParseUint/Atoi, 1500 + 500
+    literals per run incl. rounding boundaries, subnormals, overflow, 400-digit mantissas): the
+    transcription of readFloat (digit/underscore/exponent syntax -> m, e; exponent accumulation that
+    saturates at 10000), the two shortcuts [dp > 310 -> ErrRange] and [dp < -330 -> 0] that Go takes
+    before converting (they agree with correct rounding since 10^310 > 2^1024 and 10^-330 < 2^-1075,
+    but that is not proved), Go's own algorithm (Eisel-Lemire / 800-digit decimal slow path) being
+    correctly rounded at all, and int64(float64) on amd64. *)
+From Coq Require Import Reals Floats.SpecFloat.
+From Flocq Require Import Core.Core IEEE754.BinarySingleNaN.
+From CanVerif Require Import Dbc.DecFloat Dbc.DecFloatCorrect.
+
+Theorem C04_decimal_correctly_rounded : forall (m : positive) (e : Z),
+  let x := (IZR (Zpos m) * bpow radix10 e)%R in
+  if Rlt_bool (Rabs (rnd64 x)) (bpow radix2 1024) then
+    SF2R radix2 (dec_to_spec m e) = rnd64 x /\ is_finite_SF (dec_to_spec m e) = true
+  else dec_to_spec m e = S754_infinity false.
+Proof. exact dec_to_spec_correct. Qed.
+Print Assumptions C04_decimal_correctly_rounded.
+
+Theorem C04_hexadecimal_correctly_rounded : forall (m : positive) (e : Z),
+  let x := (IZR (Zpos m) * bpow radix2 e)%R in
+  if Rlt_bool (Rabs (rnd64 x)) (bpow radix2 1024) then
+    SF2R radix2 (bin_to_spec m e) = rnd64 x /\ is_finite_SF (bin_to_spec m e) = true
+  else bin_to_spec m e = S754_infinity false.
+Proof. exact bin_to_spec_correct. Qed.
+Print Assumptions C04_hexadecimal_correctly_rounded.
+
+Theorem C04_bits_are_ieee754 : forall s m e (H : SpecFloat.bounded 53 1024 m e = true),
+  b64_bits_of_spec (S754_finite s m e)
+  = Some (Bits.bits_of_binary_float 52 11 (Binary.B754_finite 53 1024 s m e H)).
+Proof. exact b64_bits_of_spec_encoding. Qed.
+Print Assumptions C04_bits_are_ieee754.
